@@ -264,7 +264,8 @@ impl LruManager {
         self.key_map.clear();
         self.free_list.clear();
 
-        // Resize entries to match loaded data (may differ from capacity)
+        // Take the loaded table as it is (its size may differ from capacity,
+        // see below)
         self.entries = entries;
 
         for (i, entry) in self.entries.iter().enumerate() {
@@ -276,6 +277,13 @@ impl LruManager {
         }
 
         self.generation = generation;
+
+        // A checkpoint written with another capacity: keep this manager's
+        // own capacity (never more entries than `capacity`, never fewer slots)
+        if self.entries.len() != self.capacity as usize {
+            self.repack_to_capacity();
+        }
+
         debug!(
             "LRU loaded: {} entries from {}",
             self.key_map.len(),
@@ -283,6 +291,32 @@ impl LruManager {
         );
 
         Ok(())
+    }
+
+    /// Rebuild the table with exactly `capacity` slots after a table of
+    /// another size was loaded.
+    ///
+    /// Entries keep their recency order. When more entries were loaded than
+    /// fit, the least recently used ones are dropped.
+    fn repack_to_capacity(&mut self) {
+        let mut loaded = Vec::with_capacity(self.key_map.len());
+        let mut idx = self.header.lru_tail;
+        while idx != LRU_SENTINEL {
+            let entry = self.entries[idx as usize];
+            if entry.is_active() {
+                loaded.push(entry);
+            }
+            idx = entry.next;
+        }
+
+        let excess = loaded.len().saturating_sub(self.capacity as usize);
+        self.reset();
+        for entry in &loaded[excess..] {
+            if self.touch(&entry.ekey) {
+                let head = self.header.mru_head as usize;
+                self.entries[head].flags = entry.flags;
+            }
+        }
     }
 
     /// Find the latest `.lru` file in the data directory.
